@@ -56,7 +56,10 @@ pub fn check(seq: usize, at: &AtomicUsize, wc: &AtomicUsize) -> bool {
 
 /// This is the trait that something implements to allow receivers
 /// to block waiting for more data.
-pub trait Wait {
+///
+/// The strategy is shared by every handle of a queue, and the handles move to
+/// other threads whenever the payload allows it, so it must be `Send + Sync`.
+pub trait Wait: Send + Sync {
     /// Causes the reader to block until the queue is available. Is passed
     /// the queue tag which the readers are waiting on, a reference to the
     /// corresponding AtomicUsize, and a reference to the number of writers
